@@ -63,6 +63,24 @@ func Closure(c *core.Ctx, roots []*core.Fn) []*core.Fn {
 			visit(c.FnOf(f))
 			return true
 		})
+		// a module function used as a value (sync.Once.Do(f), go f, a callback argument) runs on this path too
+		ast.Inspect(fn.Decl.Body, func(n ast.Node) bool {
+			id, ok := n.(*ast.Ident)
+			if !ok {
+				return true
+			}
+			f, ok := info.Uses[id].(*types.Func)
+			if !ok || f.Pkg() == nil || !strings.HasPrefix(f.Pkg().Path(), core.Module) {
+				return true
+			}
+			if sig, ok := f.Type().(*types.Signature); ok && sig.Recv() != nil {
+				if _, isIface := sig.Recv().Type().Underlying().(*types.Interface); isIface {
+					return true
+				}
+			}
+			visit(c.FnOf(f))
+			return true
+		})
 	}
 	for _, r := range roots {
 		visit(r)
@@ -188,6 +206,10 @@ func Check(c *core.Ctx, rule string, roots []*core.Fn, watched []string, who str
 				case *ast.BinaryExpr, *ast.ParenExpr, *ast.IfStmt, *ast.SwitchStmt, *ast.StarExpr:
 					// comparisons with nil etc.
 				}
+			}
+			if _, isArr := v.Type().Underlying().(*types.Array); isArr && verdict == "it is re-sliced into an alias" {
+				// slicing a package-level array yields a slice that shares the array's storage
+				isRef = true
 			}
 			if !isRef && verdict != "" && verdict != "it is assigned" && verdict != "its address is taken" &&
 				verdict != "a field of the shared object is assigned" && verdict != "an element of it is assigned" && verdict != "an element of it is modified" {
